@@ -254,23 +254,23 @@ def colonizeAux : Option Str → Str → Str
 
 def colonize (s : Str) : Str := colonizeAux none s
 
-/-- one pass of `strings.ReplaceAll(s, "//", "/")` -/
-def dedupOnce : Str → Str
-  | [] => []
-  | [c] => [c]
-  | c :: d :: t => if c = '/' ∧ d = '/' then '/' :: dedupOnce t else c :: dedupOnce (d :: t)
+/-- `for strings.Contains(p, "//") { p = strings.ReplaceAll(p, "//", "/") }` has the same result as
+    collapsing every run of slashes (`squeeze`; proved for the C15 copy of this loop as
+    `Gleece.Paths.collapse`, and sampled here by the correspondence) -/
+def ensureLeading (p : Str) : Str := if p.head? = some '/' then p else '/' :: p
 
-/-- `toGinUrl` / `toEchoUrl` / `toFiberUrl` -/
-def colonDedupLeading (s : Str) : Str :=
-  let p := dedupOnce (colonize s)
-  if p.isEmpty then ['/'] else if p.head? = some '/' then p else '/' :: p
+/-- `toGinUrl` / `toEchoUrl` / `toFiberUrl`: `{x}` → `:x`, collapse every run of slashes, root the route -/
+def colonSqueezeLeading (s : Str) : Str := ensureLeading (squeeze (colonize s))
 
-inductive UrlConv | colonDedupOnceLeading | identity
+/-- `toMuxUrl` / `toChiUrl`: collapse every run of slashes, root the route -/
+def squeezeLeading (s : Str) : Str := ensureLeading (squeeze s)
+
+inductive UrlConv | colonSqueezeLeading | squeezeLeading
 deriving DecidableEq, Repr
 
 def urlConv : UrlConv → Str → Str
-  | .colonDedupOnceLeading, s => colonDedupLeading s
-  | .identity, s => s
+  | .colonSqueezeLeading, s => colonSqueezeLeading s
+  | .squeezeLeading, s => squeezeLeading s
 
 structure Registration where
   verb : String
